@@ -75,6 +75,8 @@ def record(sp, rs, k, thorough):
         maps = None
     if k % 4 == 1 or k % 8 == 2:
         ksp = np.asfortranarray(ksp)       # a Fortran-ordered acquisition is the same data
+    if not synthetic and k % 6 == 1:
+        ksp[0] *= 1e-18                    # a first coil that is almost (not exactly) silent: the phase reference must not rescale the maps
     ksp0 = ksp.copy()
     np.random.seed(k)
     app = mr.app.EspiritCalib(ksp, calib_width=calib_width, thresh=thresh, kernel_width=kernel_width, crop=crop, max_iter=max_iter, output_eigenvalue=True, show_pbar=False)
